@@ -833,9 +833,13 @@ C13.manifest = {
             "(strictly increasing modularity, C13_strict_chain_bounded), so the sweep loop stops within n^n sweeps: "
             "with fuel >= n^n compute_one_level returns Ok; an improving phase leaves an empty slot, so the next level "
             "has fewer nodes; C13_never_out_of_fuel - with level fuel > N and sweep fuel >= N^N louvain_partitions / "
-            "louvain_communities never return OutOfFuel. (D) C13_level_ge_singletons, "
-            "C13_levels_monotone_partial - modularity never decreases from level to level and the first level is at "
-            "least as good as the singletons, measured on the first working graph. Round 1 (kept): "
+            "louvain_communities never return OutOfFuel. (D) Monotonicity: C13_levels_monotone - for every single-edge "
+            "input graph, Newman's modularity of the INPUT graph (its own names and weighted edge list) never decreases "
+            "along the returned levels and the first level is at least as good as the all-singletons partition "
+            "(C13_level_ge_singletons per level; C13_convert_back_preserves_Q: the renaming preserves modularity; "
+            "level graphs are faithful to the first working graph, same total weight, so the constant m is right on "
+            "every level); C13_levels_monotone_partial - the same for every input incl. multigraphs, measured on the "
+            "first working graph. Round 1 (kept): "
             "C13_check_levels_sound (verified checker), C13_communities_is_last, C13_move_gain_newman(_directed), "
             "C13_accepted_move_increases_Q(_directed), C13_move_only_if_strictly_better, C13_model_move_increases_Q, "
             "C13_aggregation_preserves_Q, C13_strict_chain_bounded, C13_move_gain(_directed).",
@@ -845,14 +849,14 @@ C13.manifest = {
             "return', with the 2 s watchdog on the implementation); no better worst-case bound for Louvain's local "
             "moving is known. The theorem is '<> OutOfFuel': a Panic/Err remains possible only outside the domain "
             "(NaN weight with weighted=true, malformed shuffle table) or through the state-level modularity calls, "
-            "whose totality is C12's per-case observation 210. (2) Monotonicity is proved on the first working graph "
-            "(convert_graph's output: integer names, parallel edges collapsed, weights 1 when weighted=false); the "
-            "transport of Newman's formula to the input graph along the renaming / to_single_edges is not proved and "
-            "stays validated per case (observation 75, exact on single-edge graphs; the oracle measures modularity on "
-            "the implementation's own edge list). Domain of the numeric theorems: resolution >= 0, non-negative real "
+            "whose totality is C12's per-case observation 210. (2) For a MULTIGRAPH input monotonicity is proved on the "
+            "first working graph only (parallel edges collapsed into their sum by to_single_edges); the transport of "
+            "Newman's formula through that collapse is not proved (the oracle measures modularity on the "
+            "implementation's own edge list; observation 75 evaluates the exact check on single-edge inputs, where it "
+            "is now the theorem C13_levels_monotone). Domain of the numeric theorems: resolution >= 0, non-negative real "
             "weights when weighted=true. The per-case flags are KEPT as ties between model and code: 74 "
             "(check_levels on the model's output - now a theorem for the model, C13_levels_partition_nested), 75 "
-            "(monotone on the input graph - see (2)), 76 (generate_graph = aggregate - now "
+            "(monotone on the input graph - now C13_levels_monotone), 76 (generate_graph = aggregate - now "
             "C13_generate_graph_aggregates), 77 (L1-L3 after the first phase - now C13_bookkeeping). Correspondence: "
             "the model (transcription of louvain.rs after the repairs) receives the shuffle order that the "
             "implementation's own rand version derives from the seed (the harness replays StdRng::seed_from_u64(seed) + "
